@@ -7,15 +7,21 @@ package main
 import (
 	"bytes"
 	"context"
+	"crypto/sha1"
 	"encoding/json"
 	"fmt"
+	"os"
+	"os/signal"
 	"runtime"
+	"strconv"
 	"strings"
+	"syscall"
 
 	"git.defalsify.org/vise.git/cache"
 	fsdb "git.defalsify.org/vise.git/db/fs"
 	"git.defalsify.org/vise.git/engine"
 	"git.defalsify.org/vise.git/persist"
+	"git.defalsify.org/vise.git/resource"
 	"git.defalsify.org/vise.git/state"
 )
 
@@ -30,14 +36,46 @@ func crashProgram() *Program {
 		}
 		sym := "v" + n
 		p.Syms[sym] = []SymResult{{Id: string(rune('a' + i)), Len: 40 * (i + 1) * (i + 1), Set: []int{}, Reset: []int{}}}
-		p.Nodes[n] = []Instr{{Op: "LOAD", A: sym, N: 0}, {Op: "HALT"}, {Op: "INCMP", A: next, B: "1"}, {Op: "INCMP", A: ".", B: "2"}, {Op: "INCMP", A: "_", B: "0"}}
+		// "flip" is re-run on every visit and returns 40 bytes made of the client's input: staying on a node with
+		// input 2 or 5 gives consecutive session states whose stored records have EXACTLY the same length
+		p.Nodes[n] = []Instr{{Op: "LOAD", A: sym, N: 0}, {Op: "LOAD", A: "flip", N: 0}, {Op: "RELOAD", A: "flip"}, {Op: "HALT"},
+			{Op: "INCMP", A: next, B: "1"}, {Op: "INCMP", A: ".", B: "2"}, {Op: "INCMP", A: ".", B: "5"}, {Op: "INCMP", A: "_", B: "0"}}
 	}
 	p.Nodes["_catch"] = []Instr{{Op: "HALT"}, {Op: "INCMP", A: "_", B: "*"}}
 	p.build()
 	return p
 }
 
+// crashRes serves the crash program; "flip" depends on the client input.
+type crashRes struct{ *recResource }
+
+func (r *crashRes) FuncFor(ctx context.Context, sym string) (resource.EntryFunc, error) {
+	if sym == "flip" {
+		return func(ctx context.Context, nodeSym string, input []byte) (resource.Result, error) {
+			c := "z"
+			if len(input) > 0 {
+				c = string(input[:1])
+			}
+			return resource.Result{Content: strings.Repeat(c, 40)}, nil
+		}, nil
+	}
+	return r.recResource.FuncFor(ctx, sym)
+}
+
+func digest(st *state.State, ca *cache.Cache) string {
+	h := sha1.New()
+	fmt.Fprint(h, st.ExecPath, st.SizeIdx, st.Flags, st.Code, st.Moves)
+	for _, fr := range ca.Cache {
+		for _, k := range sortedKeys(fr) {
+			fmt.Fprint(h, k, "=", fr[k], ";")
+		}
+		fmt.Fprint(h, "|")
+	}
+	return fmt.Sprintf("%x", h.Sum(nil))[:16]
+}
+
 type fsResult struct {
+	Digest string   `json:"digest"`
 	Ok     bool     `json:"ok"`
 	Err    string   `json:"err"`
 	Cont   bool     `json:"cont"`
@@ -58,7 +96,7 @@ func cmdFsReq(args []string) error {
 		return err
 	}
 	p := crashProgram()
-	rs := &recResource{prog: p}
+	rs := &crashRes{&recResource{prog: p}}
 	pe := persist.NewPersister(store)
 	en := engine.NewEngine(engine.Config{Root: "root", FlagCount: 2, SessionId: args[1]}, rs).WithPersister(pe)
 	res := fsResult{Path: []string{}, Flags: []int{}}
@@ -68,6 +106,15 @@ func cmdFsReq(args []string) error {
 		res.Err = err.Error()
 	} else {
 		en.Flush(ctx, bytes.NewBuffer(nil))
+	}
+	// VERIF_FSIZE=<k>: from here on a regular file may not grow beyond / be written past k bytes (RLIMIT_FSIZE): the kernel
+	// accepts a partial write and the process then dies of SIGXFSZ - a real process death in the middle of a write
+	if k, err := strconv.Atoi(os.Getenv("VERIF_FSIZE")); err == nil && k > 0 {
+		signal.Reset(syscall.SIGXFSZ)
+		lim := syscall.Rlimit{Cur: uint64(k), Max: uint64(k)}
+		if err := syscall.Setrlimit(syscall.RLIMIT_FSIZE, &lim); err != nil {
+			return err
+		}
 	}
 	if ferr := en.Finish(ctx); ferr != nil {
 		res.Err += " finish: " + ferr.Error()
@@ -101,6 +148,7 @@ func cmdFsLoad(args []string) error {
 		res.Ok = true
 		res.Path, res.Idx, res.Flags, res.Ncode = append([]string{}, st.ExecPath...), int(st.SizeIdx), flagsOf(st), len(st.Code)
 		res.Used, res.Frames = int(pe.Memory.CacheUseSize), len(pe.Memory.Cache)
+		res.Digest = digest(st, pe.Memory)
 	}
 	b, _ := json.Marshal(res)
 	fmt.Println("RESULT " + string(b))
